@@ -234,8 +234,12 @@ def register(reg):  # noqa: F811
           lambda c: B(V.rows(me(c)) == z3.If(r1(c), V.sem(S(c, "projection")(me(c)), V.rows(r0(c))), V.rows(r0(c)))))
 
     # ------------------------------------------------------------------ sql.Engine.conform
-    k = reg.contract("sql._engine:Engine.conform", properties=P, result_td=TSel)
+    k = reg.contract("sql._engine:Engine.conform", properties=P + ("C15",), result_td=TSel)
     k.req("relation-columns-truthful", lambda c: B(truthful_cols(c, c.relation.z)))
+    # C15: a locked relation (leaf, materialization) is wrapped in a Select as the identical object -- never re-created
+    k.ens("a-locked-relation-is-wrapped-as-the-identical-object",
+          lambda c: B(z3.Implies(z3.Or(smt.typ(c.relation.z) == cid(c, "LeafRelation"), smt.typ(c.relation.z) == cid(c, "Materialization")),
+                                 S(c, "skip_to")(c.result.z) == c.relation.z)))
     k.req("relation-in-this-engine", lambda c: B(z3.And(eng(c, c.relation.z) == c.self.z)))
     k.ens("a-select-is-returned-as-it-is", lambda c: B(z3.Implies(is_select(c, c.relation.z), c.result.z == c.relation.z)))
     k.ens("same-rows-engine-columns", lambda c: B(z3.And(V.rows(c.result.z) == V.rows(c.relation.z), eng(c, c.result.z) == eng(c, c.relation.z),
